@@ -58,6 +58,8 @@ func emit(args []string) {
 	var seed uint64
 	var plan string
 	binary := false
+	mode := 0
+	_ = binary
 	exit := 0
 	kill := 0
 	for i := 0; i < len(args); i++ {
@@ -70,6 +72,9 @@ func emit(args []string) {
 			plan = args[i]
 		case "--binary":
 			binary = true
+			mode = 1
+		case "--oneline":
+			mode = 2
 		case "--exit":
 			i++
 			exit, _ = strconv.Atoi(args[i])
@@ -95,11 +100,11 @@ func emit(args []string) {
 			// nothing can be written to a stream that was closed before
 		case strings.HasPrefix(step, "o:"):
 			n, _ := strconv.Atoi(step[2:])
-			writeAll(os.Stdout, core.Stream(seed, 'o', offO, n, binary))
+			writeAll(os.Stdout, core.StreamOf(seed, 'o', offO, n, mode))
 			offO += n
 		case strings.HasPrefix(step, "e:"):
 			n, _ := strconv.Atoi(step[2:])
-			writeAll(os.Stderr, core.Stream(seed, 'e', offE, n, binary))
+			writeAll(os.Stderr, core.StreamOf(seed, 'e', offE, n, mode))
 			offE += n
 		case strings.HasPrefix(step, "s:"):
 			ms, _ := strconv.Atoi(step[2:])
